@@ -55,7 +55,7 @@ CLAIMED = {
    technique="Coq language-inclusion proof on generated regex ASTs (verified regex metatheory) + differential correspondence",
    ref="6 C16"),
  "C18": dict(
-   text="Proved in Coq (closed under the global context): the trie-based predicates (is_youtube_url, is_shortened_url, should_resolve) are true exactly when the url's hostname tokens are covered by (equal to or a whole-label subdomain of) a listed domain — instantiation of the C09 theorem at the generated lists — and read nothing but the hostname; every url flagged by is_shortened_url is flagged by should_resolve; a homepage path (bare shortener domain) is flagged by neither; is_homepage / could_be_html are functions of the path alone and get_hostname of the host alone; the pre-parsed form of the four regex predicates reads only the hostname. PARTIAL for is_facebook_url / is_twitter_url / is_instagram_url / is_telegram_url: that they are true exactly for whole-label subdomains of the site's domains, agree across the string / scheme-less / '//' / SplitResult forms and ignore userinfo / path / query / fragment decoys is decided by the harness against whole-label membership on every domain of the bundled lists in 9 look-alike variants x decoys x 5 input forms, and by model-vs-implementation correspondence; not proved.",
+   text="Proved in Coq (closed under the global context): the trie-based predicates (is_youtube_url, is_shortened_url, should_resolve) are true exactly when the url's hostname tokens are covered by (equal to or a whole-label subdomain of) a listed domain — instantiation of the C09 theorem at the generated lists — and read nothing but the hostname; every url flagged by is_shortened_url is flagged by should_resolve; a homepage path (bare shortener domain) is flagged by neither; is_homepage / could_be_html are functions of the path alone and get_hostname of the host alone; the pre-parsed form of the four regex predicates reads only the hostname; for their string forms, the four patterns end with ([/?#] | blanks-to-end) and look forward nowhere else (computed on the regenerated ASTs), hence — by a general theorem on regexes without lookahead — a positive answer is decided by the prefix of the url ending at the first '/', '?' or '#' after the host: no text of the path, query or fragment can change it. PARTIAL for is_facebook_url / is_twitter_url / is_instagram_url / is_telegram_url: that they are true exactly for whole-label subdomains of the site's domains, agree across the string / scheme-less / '//' / SplitResult forms and ignore userinfo / path / query / fragment decoys is decided by the harness against whole-label membership on every domain of the bundled lists in 9 look-alike variants x decoys x 5 input forms, and by model-vs-implementation correspondence; exact membership and the userinfo clause are not proved.",
    note="Trusted: Coq kernel, translator (11 regex ASTs, three domain lists, HOMEPAGE_PATHS, HTML_LIKE_EXTENSIONS), extraction, driver, harness; os.path.splitext transcription; idna oracle. Six genuine defects of the pinned tree (look-alike hosts, path / userinfo text deciding) were repaired by fix: commits.",
    technique="Coq instantiation of the hostname-trie theorem + structural non-interference lemmas + differential correspondence + membership decider",
    ref="6 C18"),
